@@ -36,6 +36,7 @@ OutOf(p, c) == LET I == {i \in DOMAIN p.others : p.others[i].c = c} IN
 OutIdx(p, o) == LET I == {i \in DOMAIN p.outs : p.outs[i] = o} IN
                 IF I = {} THEN 0 ELSE CHOOSE i \in I : TRUE
 MaxTaps(p) == Len(p.outs)
+RelCap(p) == Len(p.outs) + 2
 Depth(p) == IF "depth" \in DOMAIN p THEN p.depth ELSE MaxTaps(p) + 2
 
 SubInit(p) ==
@@ -49,7 +50,8 @@ SubInit(p) ==
    oth |-> FALSE,     \* another key's press has arrived during the run
    rem |-> 0,         \* ticks until the window closes (resolution tick when it reaches 0)
    el |-> 0,          \* ticks since the run's first press arrived / since last k press (eager), capped
-   rels |-> 0,        \* releases of k arrived during the run
+   rels |-> 0,        \* releases of k arrived during the run (capped at RelCap; compared with the run length
+                      \*   under the same cap: a run longer than the list may count more taps than the old cap)
    cur |-> 0,         \* index of the action currently held by the run (lazy sharp), 0 = none
    pos |-> 0,         \* eager: position in the run of the last tap (sharp chain), 0 = fresh
    chain |-> FALSE,   \* eager: the chain of taps is in sync since a sharp start
@@ -104,7 +106,7 @@ SubIn(m, r, g) ==
                  THEN [m0 EXCEPT !.run = "cnt", !.n = 1, !.unc = 0, !.oth = FALSE,
                                  !.rem = 1 + p.T, !.el = 0, !.rels = 0, !.cur = 0]
                  ELSE m0
-            ELSE [m0 EXCEPT !.rels = IF m.run # "none" THEN OMin(@ + 1, MaxTaps(p) + 1) ELSE @,
+            ELSE [m0 EXCEPT !.rels = IF m.run # "none" THEN OMin(@ + 1, RelCap(p)) ELSE @,
                             !.chain = m.chain /\ inSync, !.clean = m.clean /\ inSync]
        ELSE IF r.e = "d"
        THEN [m0 EXCEPT !.oth = TRUE, !.chain = FALSE, !.pos = 0, !.succ = 0, !.intr = FALSE, !.clean = FALSE]
@@ -127,7 +129,7 @@ Scan(m, out, expJ) ==
             ELSE IF expJ >= 0 /\ j # expJ
             THEN Fail(m, "C17: wrong action for the number of taps (or performed on the wrong tick)")
             ELSE Scan([c[2] EXCEPT !.cur = IF ~p.eager /\ m.run = "cnt" THEN j ELSE @], rest, 0 - 1)
-       ELSE IF e[1] = "u" /\ ~p.eager /\ m.run = "held" /\ m.cur = j /\ m.rels < m.n
+       ELSE IF e[1] = "u" /\ ~p.eager /\ m.run = "held" /\ m.cur = j /\ m.rels < OMin(m.n, RelCap(p))
        THEN Fail(m, "C17: the chosen action was released before the final release of the key")
        ELSE Scan(m, rest, expJ)
 
@@ -163,7 +165,7 @@ SubTick(m, out, idle, cb) ==
               THEN [m2 EXCEPT !.run = "held", !.n = nFinal, !.unc = 0]
               ELSE [m2 EXCEPT !.n = seen, !.unc = IF seen > m.n THEN 0 ELSE m.unc,
                               !.rem = IF seen > m.n THEN p.T ELSE rem1]
-        m4 == IF m3.run = "held" /\ ~(p.outs[m3.cur] \in DownAfter(out, {})) /\ m3.rels >= m3.n
+        m4 == IF m3.run = "held" /\ ~(p.outs[m3.cur] \in DownAfter(out, {})) /\ m3.rels >= OMin(m3.n, RelCap(p))
                  /\ \E i \in DOMAIN out : out[i] = <<"u", p.outs[m3.cur]>>
               THEN [m3 EXCEPT !.run = "none", !.cur = 0] ELSE m3
         m5 == IF m4.run = "held" /\ idle /\ m.lastIdle /\ m.gapIn = 0 THEN [m4 EXCEPT !.run = "none", !.cur = 0] ELSE m4
